@@ -152,6 +152,14 @@ class Translator:
                     raise Unsupported('symbols', name, 'more than 156 named symbols')
         return self.symbols[name]
 
+    def int_value(self, m, e):
+        """an int literal, or a module-level name that is bound once to an int literal and never rebound"""
+        if isinstance(e, ast.Constant) and isinstance(e.value, int) and not isinstance(e.value, bool):
+            return e.value
+        if isinstance(e, ast.Name) and e.id in getattr(self, 'module_ints', {}).get(m.cls, {}):
+            return self.module_ints[m.cls][e.id]
+        return None
+
     def reflect(self, m, e):
         """value of the module-level name `e.id` in the module of m's class, as a Gallina pattern literal"""
         import importlib
@@ -225,13 +233,14 @@ class Translator:
                 if ar == 0:
                     return cname
                 return '(' + cname + ' ' + ' '.join(self.pat_expr(m, a, env, hoist) for a in e.args) + ')'
-            if f == 'MetaVar' and len(e.args) == 1 and isinstance(e.args[0], ast.Constant) \
-                    and isinstance(e.args[0].value, int) and 0 <= e.args[0].value < 256:
-                return f'(phi {e.args[0].value})'
+            if f == 'MetaVar' and len(e.args) == 1 and self.int_value(m, e.args[0]) is not None \
+                    and 0 <= self.int_value(m, e.args[0]) < 256:
+                return f'(phi {self.int_value(m, e.args[0])})'
 
             def lit(a, what):
-                if isinstance(a, ast.Constant) and isinstance(a.value, int) and not isinstance(a.value, bool) and 0 <= a.value < 256:
-                    return a.value
+                iv = self.int_value(m, a)
+                if iv is not None and 0 <= iv < 256:
+                    return iv
                 raise Unsupported(m.where, e, f'{what} is not a literal id')
             if f in ('EVar', 'SVar') and len(e.args) == 1:
                 return f'({f} {lit(e.args[0], f)})'
@@ -257,9 +266,8 @@ class Translator:
         if isinstance(e, ast.Name) and env.get(e.id) == 'evar':
             return v(e.id)
         if isinstance(e, ast.Call) and isinstance(e.func, ast.Name) and e.func.id == 'EVar' and len(e.args) == 1 \
-                and not e.keywords and isinstance(e.args[0], ast.Constant) and isinstance(e.args[0].value, int) \
-                and not isinstance(e.args[0].value, bool) and 0 <= e.args[0].value < 256:
-            return str(e.args[0].value)
+                and not e.keywords and self.int_value(m, e.args[0]) is not None and 0 <= self.int_value(m, e.args[0]) < 256:
+            return str(self.int_value(m, e.args[0]))
         raise Unsupported(m.where, e, 'element-variable argument outside the subset')
 
     def owner_class(self, m, recv):
@@ -317,10 +325,10 @@ class Translator:
             if f == 'load_axiom_by_index':
                 if not via_self:
                     raise Unsupported(m.where, e, 'axiom of an imported module loaded')
-                if len(e.args) != 1 or not isinstance(e.args[0], ast.Constant) or not isinstance(e.args[0].value, int) \
-                        or not 0 <= e.args[0].value < 1000:
-                    raise Unsupported(m.where, e, 'load_axiom_by_index needs a literal index')
-                return f'(load_ax_by_index {self.class_axioms[m.cls]} {e.args[0].value})'
+                iv = self.int_value(m, e.args[0]) if len(e.args) == 1 else None
+                if iv is None or not 0 <= iv < 1000:
+                    raise Unsupported(m.where, e, 'load_axiom_by_index needs a literal index (or a module constant bound once to one)')
+                return f'(load_ax_by_index {self.class_axioms[m.cls]} {iv})'
             if f == 'load_axiom':
                 if not via_self or len(e.args) != 1:
                     raise Unsupported(m.where, e, 'load_axiom outside the subset')
@@ -587,6 +595,7 @@ def translate(repo_src, extra_path):
     class_parent, cls_nodes, cls_src = {}, {}, {}
     cls_file, module_names, submodules = {}, {}, {}
     decorated_private = {}
+    module_ints = {}
     for cls, rel, parent in SOURCES:
         path = os.path.join(repo_src, 'proof_generation', rel)
         text = open(path).read()
@@ -602,6 +611,7 @@ def translate(repo_src, extra_path):
         cls_nodes[cls], cls_src[cls] = node, text
         cls_file[cls] = rel
         module_names[cls] = {t.id for st in tree.body if isinstance(st, ast.Assign) for t in st.targets if isinstance(t, ast.Name)}
+        module_ints[cls] = module_int_constants(tree)
         submodules[cls] = {}
         init = next((n for n in node.body if isinstance(n, ast.FunctionDef) and n.name == '__init__'), None)
         for st in (ast.walk(init) if init is not None else []):
@@ -662,6 +672,7 @@ def translate(repo_src, extra_path):
     class_ax_name = {}
     tr = Translator(methods, class_parent, class_ax_name)
     tr.submodules, tr.cls_file, tr.module_names, tr.repo_src = submodules, cls_file, module_names, repo_src
+    tr.module_ints = module_ints
     for cls in submodules:
         for attr, target in submodules[cls].items():
             if target not in class_parent:
@@ -938,6 +949,38 @@ def translate(repo_src, extra_path):
                axioms={cls: dict(name=nm, count=k) for cls, nm, _, k in ax_defs},
                n_methods_total=len(order), per_file=per_file, skipped_private=skipped_private, symbols=tr.symbols)
     return text, idx
+
+
+def module_int_constants(tree):
+    """module-level names bound exactly once (plain or annotated assignment, e.g. `X: Final = 3`) to an int literal and
+    never rebound anywhere in the module (assignment, augmented assignment, loop / with / walrus target, global, del,
+    import, def / class of that name) -> {name: value}.  Such a name IS its value."""
+    cand, bad = {}, set()
+    for st in tree.body:
+        tgt, val = None, None
+        if isinstance(st, ast.Assign) and len(st.targets) == 1 and isinstance(st.targets[0], ast.Name):
+            tgt, val = st.targets[0].id, st.value
+        elif isinstance(st, ast.AnnAssign) and isinstance(st.target, ast.Name) and st.value is not None:
+            tgt, val = st.target.id, st.value
+        if tgt is not None and isinstance(val, ast.Constant) and isinstance(val.value, int) and not isinstance(val.value, bool):
+            if tgt in cand:
+                bad.add(tgt)
+            cand[tgt] = val.value
+    stores = {}
+    for n in ast.walk(tree):
+        if isinstance(n, ast.Name) and isinstance(n.ctx, (ast.Store, ast.Del)):
+            stores[n.id] = stores.get(n.id, 0) + 1
+        elif isinstance(n, (ast.Global, ast.Nonlocal)):
+            bad.update(n.names)
+        elif isinstance(n, (ast.FunctionDef, ast.AsyncFunctionDef, ast.ClassDef)):
+            stores[n.name] = stores.get(n.name, 0) + 1
+            if not isinstance(n, ast.ClassDef):
+                for a in n.args.args + n.args.kwonlyargs + n.args.posonlyargs + [x for x in (n.args.vararg, n.args.kwarg) if x]:
+                    stores[a.arg] = stores.get(a.arg, 0) + 1     # a parameter of that name shadows it somewhere
+        elif isinstance(n, ast.alias):
+            nm = (n.asname or n.name).split('.')[0]
+            stores[nm] = stores.get(nm, 0) + 1
+    return {k: v for k, v in cand.items() if k not in bad and stores.get(k, 0) == 1}
 
 
 def strip_annotations(fn):
